@@ -20,6 +20,7 @@ pub fn rewrite_item(item: &mut Item, unit: &Unit, log: &mut Log, lifted: &mut Ve
                 subst_generics_type(&mut f.ty, unit);
             }
             apply_generic_subst_generics(&mut s.generics, unit);
+            drop_lifetimes_if_empty(&mut s.generics);
         }
         Item::Enum(e) => {
             clean_attrs(&mut e.attrs, true, log, &e.ident.to_string());
@@ -127,6 +128,8 @@ fn strip_refcell_type(ty: &mut Type, log: &mut Log, name: &str) {
     }
 }
 
+fn drop_lifetimes_if_empty(_g: &mut Generics) {}
+
 fn apply_generic_subst_generics(g: &mut Generics, unit: &Unit) {
     if unit.generic_subst.is_empty() {
         return;
@@ -180,7 +183,15 @@ impl<'u> VisitMut for GenSubst<'u> {
             }
         }
         visit_mut::visit_type_mut(self, ty);
-        // drop generic arguments that referred to removed params: Jaccard<T> -> Jaccard when T substituted and opts say so
+    }
+    fn visit_path_mut(&mut self, p: &mut Path) {
+        let de: Vec<String> = self.unit.opts.get("degeneric").and_then(|v| v.as_array()).map(|a| a.iter().filter_map(|x| x.as_str().map(|s| s.to_string())).collect()).unwrap_or_default();
+        for seg in p.segments.iter_mut() {
+            if de.iter().any(|d| seg.ident == d) {
+                seg.arguments = PathArguments::None;
+            }
+        }
+        visit_mut::visit_path_mut(self, p);
     }
 }
 
@@ -596,5 +607,27 @@ impl<'a> VisitMut for Body<'a> {
             out.extend(repl);
         }
         b.stmts = out;
+    }
+}
+
+
+struct Renamer<'r> {
+    map: &'r std::collections::BTreeMap<String, String>,
+    hits: usize,
+}
+impl<'r> VisitMut for Renamer<'r> {
+    fn visit_ident_mut(&mut self, i: &mut Ident) {
+        if let Some(to) = self.map.get(&i.to_string()) {
+            *i = ident(to);
+            self.hits += 1;
+        }
+    }
+}
+
+pub fn rename_idents(item: &mut Item, map: &std::collections::BTreeMap<String, String>, log: &mut Log) {
+    let mut r = Renamer { map, hits: 0 };
+    r.visit_item_mut(item);
+    if r.hits > 0 {
+        log.entries.push(("R24".into(), "-".into(), format!("module-private names renamed for the flat unit: {:?} ({} occurrences)", map, r.hits)));
     }
 }
